@@ -131,6 +131,7 @@ func avcSampleDec(n int, b []byte) string {
 func c12(c *h.Ctx) {
 	r := c.R
 	defer avcReuseReport(c)
+	defer keptCheck(c, "marshal.bytes_not_aliased")
 	// 1. all 256 NAL header bytes, exhaustively, with two payload shapes.
 	for b := 0; b < 256; b++ {
 		for _, tail := range [][]byte{nil, {0xaa, 0xbb}} {
@@ -179,6 +180,7 @@ func c12(c *h.Ctx) {
 			d := genNaluData(r, 70000)
 			n := mkNalu(uint8(ri), uint8(ty), d)
 			out, err := n.MarshalBinary()
+			keep("NAL unit", out)
 			in := "avc.nalu.enc " + naluStr(n)
 			c.Hold(err == nil, "nalu.marshal_ok", in, fmt.Sprint(err), "nil")
 			c.Eq("nalu.enc", in, h.Hex(out), c.O.Call("avc.nalu.enc", naluStr(n)))
@@ -228,6 +230,7 @@ func c12(c *h.Ctx) {
 			rec.LengthSizeMinusOne, nalusStr(rec.SequenceParameterSetNALUnits), nalusStr(rec.PictureParameterSetNALUnits))
 		in := "avc.rec.enc " + fields
 		out, err := rec.MarshalBinary()
+		keep("configuration record", out)
 		c.Hold(err == nil, "rec.marshal_ok", in, fmt.Sprint(err), "nil")
 		c.Eq("rec.enc", in, h.Hex(out), c.O.Call(strings.Fields(in)...))
 		// property: byte for byte the ISO layout (independent writer in Lean Spec; NAL units as raw bytes)
@@ -296,6 +299,7 @@ func c12(c *h.Ctx) {
 		s := avc.NewAVCSample(uint8(size - 1))
 		s.NALUs = ns
 		out, err := s.MarshalBinary()
+		keep("sample", out)
 		in := fmt.Sprintf("avc.sample.enc %d %s", size, nalusStr(ns))
 		c.Hold(err == nil, "sample.marshal_ok", in, fmt.Sprint(err), "nil")
 		c.Eq("sample.enc", h.Trunc(in, 300), h.Hex(out), c.O.Call("avc.sample.enc", fmt.Sprint(size), nalusStr(ns)))
